@@ -21,7 +21,10 @@
    tree_textable t   decidable: every token the printer emits for t (whatever the parentheses) has a
                      spelling.
    parse_text        parser.Parse on a source text: lexer.Lex, then the token-level parser.
-   erase_loc         forgets every node location (the text-level theorems are stated modulo locations).
+   map_loc phi, erase_loc
+                     relabels / forgets every node location (the round-trip theorems are stated modulo
+                     locations); index_from, nth_loc, loc_at, distinct_locs: index labels, for the theorem
+                     that says where the nodes of the parsed tree are located.
 
    The token classes, their spellings and side conditions are those of Lex/LexProofs.v (`ptok`,
    `tok_runes`, `tok_ok`, `follow_ok`); `xtok` adds the two spellings that start with the word `not`
@@ -290,6 +293,10 @@ Section Classes.
     | None => false
     end.
 
+  (* the positions lexer.Lex gives to the tokens of a text (the EOF token included) *)
+  Definition text_positions (txt : list Z) : list loc :=
+    match lex uni_letter uni_digit uni_space txt with LexOk ts => map tloc ts | _ => [] end.
+
   (* parser.Parse(text): lexer.Lex, then the parser on the tokens *)
   Definition parse_text (g : grammar) (o : oracles) (txt : list Z) : parse_result :=
     match lex uni_letter uni_digit uni_space txt with
@@ -385,41 +392,76 @@ Section TreeText.
     end.
 End TreeText.
 
-(* ------------------------------------------------------------------ forgetting locations *)
-Definition erase_ann_loc (a : ann) : ann := mkAnn noloc (akind a).
+(* ------------------------------------------------------------------ relabelling and forgetting locations *)
+Definition map_ann_loc (phi : loc -> loc) (a : ann) : ann := mkAnn (phi (aloc a)) (akind a).
 
-Fixpoint erase_loc (e : expr) : expr :=
+Fixpoint map_loc (phi : loc -> loc) (e : expr) : expr :=
   match e with
-  | ENil a => ENil (erase_ann_loc a)
-  | EIdent a n ns => EIdent (erase_ann_loc a) n ns
-  | EInt a z => EInt (erase_ann_loc a) z
-  | EFloat a f => EFloat (erase_ann_loc a) f
-  | EBool a b => EBool (erase_ann_loc a) b
-  | EStr a s => EStr (erase_ann_loc a) s
-  | EConst a v => EConst (erase_ann_loc a) v
-  | EUnary a op x => EUnary (erase_ann_loc a) op (erase_loc x)
-  | EBinary a op l r => EBinary (erase_ann_loc a) op (erase_loc l) (erase_loc r)
-  | EMatches a re l r => EMatches (erase_ann_loc a) re (erase_loc l) (erase_loc r)
-  | EProperty a x n ns => EProperty (erase_ann_loc a) (erase_loc x) n ns
-  | EIndex a x i => EIndex (erase_ann_loc a) (erase_loc x) (erase_loc i)
-  | ESlice a x f t => ESlice (erase_ann_loc a) (erase_loc x) (option_map erase_loc f) (option_map erase_loc t)
-  | EMethod a x n args ns => EMethod (erase_ann_loc a) (erase_loc x) n (map erase_loc args) ns
-  | EFunction a n args fast => EFunction (erase_ann_loc a) n (map erase_loc args) fast
-  | EBuiltin a b args => EBuiltin (erase_ann_loc a) b (map erase_loc args)
-  | EClosure a x => EClosure (erase_ann_loc a) (erase_loc x)
-  | EPointer a => EPointer (erase_ann_loc a)
-  | ECond a c x y => ECond (erase_ann_loc a) (erase_loc c) (erase_loc x) (erase_loc y)
-  | EArray a es => EArray (erase_ann_loc a) (map erase_loc es)
-  | EMap a ps => EMap (erase_ann_loc a) (map erase_loc ps)
-  | EPair a k v => EPair (erase_ann_loc a) (erase_loc k) (erase_loc v)
+  | ENil a => ENil (map_ann_loc phi a)
+  | EIdent a n ns => EIdent (map_ann_loc phi a) n ns
+  | EInt a z => EInt (map_ann_loc phi a) z
+  | EFloat a f => EFloat (map_ann_loc phi a) f
+  | EBool a b => EBool (map_ann_loc phi a) b
+  | EStr a s => EStr (map_ann_loc phi a) s
+  | EConst a v => EConst (map_ann_loc phi a) v
+  | EUnary a op x => EUnary (map_ann_loc phi a) op (map_loc phi x)
+  | EBinary a op l r => EBinary (map_ann_loc phi a) op (map_loc phi l) (map_loc phi r)
+  | EMatches a re l r => EMatches (map_ann_loc phi a) re (map_loc phi l) (map_loc phi r)
+  | EProperty a x n ns => EProperty (map_ann_loc phi a) (map_loc phi x) n ns
+  | EIndex a x i => EIndex (map_ann_loc phi a) (map_loc phi x) (map_loc phi i)
+  | ESlice a x f t => ESlice (map_ann_loc phi a) (map_loc phi x) (option_map (map_loc phi) f) (option_map (map_loc phi) t)
+  | EMethod a x n args ns => EMethod (map_ann_loc phi a) (map_loc phi x) n (map (map_loc phi) args) ns
+  | EFunction a n args fast => EFunction (map_ann_loc phi a) n (map (map_loc phi) args) fast
+  | EBuiltin a b args => EBuiltin (map_ann_loc phi a) b (map (map_loc phi) args)
+  | EClosure a x => EClosure (map_ann_loc phi a) (map_loc phi x)
+  | EPointer a => EPointer (map_ann_loc phi a)
+  | ECond a c x y => ECond (map_ann_loc phi a) (map_loc phi c) (map_loc phi x) (map_loc phi y)
+  | EArray a es => EArray (map_ann_loc phi a) (map (map_loc phi) es)
+  | EMap a ps => EMap (map_ann_loc phi a) (map (map_loc phi) ps)
+  | EPair a k v => EPair (map_ann_loc phi a) (map_loc phi k) (map_loc phi v)
   end.
 
-Definition erase_result (r : parse_result) : parse_result :=
-  match r with ROk e => ROk (erase_loc e) | RErr _ => RErr noloc | RFuel => RFuel end.
+Definition map_result (phi : loc -> loc) (r : parse_result) : parse_result :=
+  match r with ROk e => ROk (map_loc phi e) | RErr l => RErr (phi l) | RFuel => RFuel end.
+
+(* a token at another position *)
+Definition reloc (phi : loc -> loc) (t : token) : token := mkTok (phi (tloc t)) (tkind_of t) (tval t).
+
+(* forgetting: every location becomes `noloc` *)
+Definition erase_loc (e : expr) : expr := map_loc (fun _ => noloc) e.
+Definition erase_result (r : parse_result) : parse_result := map_result (fun _ => noloc) r.
 
 (* a token without its position *)
 Definition strip_tok (t : token) : token := mkTok noloc (tkind_of t) (tval t).
 Definition strip (ts : list token) : list token := map strip_tok ts.
+
+(* index labels: token i of a list carries the label (i + 1, 0); `nth_loc ts` reads a label back as the
+   location of the token it names *)
+Fixpoint index_from (i : nat) (ts : list token) : list token :=
+  match ts with
+  | [] => []
+  | t :: r => mkTok (Z.of_nat (S i), 0) (tkind_of t) (tval t) :: index_from (S i) r
+  end.
+Definition nth_loc (ts : list token) (l : loc) : loc :=
+  if (snd l =? 0) && (1 <=? fst l) then
+    match nth_error ts (Z.to_nat (fst l - 1)) with Some t => tloc t | None => noloc end
+  else noloc.
+
+(* the location, in the list `ps`, that stands at the index of the first token of `ts` located at `l` *)
+Fixpoint loc_at (ts : list token) (ps : list loc) (l : loc) : loc :=
+  match ts, ps with
+  | t :: r, p :: q => if loc_eqb (tloc t) l then p else loc_at r q l
+  | _, _ => noloc
+  end.
+(* as a relabelling of trees: unlabelled nodes (`noloc`: the conditional nodes) stay unlabelled *)
+Definition label_pos (ts : list token) (ps : list loc) (l : loc) : loc :=
+  if loc_eqb l noloc then noloc else loc_at ts ps l.
+(* the located tokens carry pairwise distinct locations *)
+Fixpoint distinct_locs (ts : list token) : bool :=
+  match ts with
+  | [] => true
+  | t :: r => (loc_eqb (tloc t) noloc || negb (existsb (fun u => loc_eqb (tloc u) (tloc t)) r)) && distinct_locs r
+  end.
 
 (* ------------------------------------------------------------------ layouts for statements and examples *)
 (* every token preceded by the same run (the first token and the end of the text by none) *)
